@@ -4,6 +4,7 @@
   MapLemmas.lean, Owner.lean; model: Nic/Model/Arb.lean; spec: Nic/Spec/Arb.lean).
 -/
 import Nic.Lemmas.Owner
+import Nic.Lemmas.StepFacts
 
 namespace Nic.Arb
 open Spec
@@ -62,10 +63,10 @@ def hostsOf (o : Objs) : Map Res := resolveHosts (listenerWarnings o (buildHosts
 
 def Inv (s : State) : Prop := s.hosts = hostsOf s.toObjs
 
-theorem rebuildHosts_objs (s : State) : (rebuildHosts s).1.toObjs = s.toObjs := rfl
-theorem rebuildHosts_hosts (s : State) : (rebuildHosts s).1.hosts = hostsOf s.toObjs := rfl
-theorem rebuildListenerHosts_objs (s : State) (ord) : (rebuildListenerHosts s ord).1.toObjs = s.toObjs := rfl
-theorem rebuildListenerHosts_hosts (s : State) (ord) : (rebuildListenerHosts s ord).1.hosts = s.hosts := rfl
+theorem rebuildHosts_objs (s : State) : (rebuildHosts s).1.toObjs = s.toObjs := by unfold rebuildHosts; rfl
+theorem rebuildHosts_hosts (s : State) : (rebuildHosts s).1.hosts = hostsOf s.toObjs := by unfold rebuildHosts hostsOf; rfl
+theorem rebuildListenerHosts_objs (s : State) (ord) : (rebuildListenerHosts s ord).1.toObjs = s.toObjs := by unfold rebuildListenerHosts; rfl
+theorem rebuildListenerHosts_hosts (s : State) (ord) : (rebuildListenerHosts s ord).1.hosts = s.hosts := by unfold rebuildListenerHosts; rfl
 
 theorem rebuildHosts_inv (s : State) : Inv (rebuildHosts s).1 := by
   unfold Inv; rw [rebuildHosts_hosts, rebuildHosts_objs]
@@ -80,16 +81,11 @@ theorem hostsOf_tss_irrelevant (o : Objs) (t : Map TS) (hp : o.cfg.passthrough =
 
 theorem tsBoth_inv (s : State) (ord) (h : s.cfg.passthrough = true ∨ Inv s) : Inv (tsBoth s ord).1 := by
   unfold tsBoth
-  by_cases hp : (rebuildListenerHosts s ord).1.cfg.passthrough = true
+  by_cases hp : s.cfg.passthrough = true
   · simp only [hp, if_true]
     exact rebuildHosts_inv _
-  · have hp' : s.cfg.passthrough = false := by
-      have : (rebuildListenerHosts s ord).1.cfg = s.cfg := rfl
-      rw [this] at hp; simpa using hp
-    have hp2 : (rebuildListenerHosts s ord).1.cfg.passthrough = false := by
-      have : (rebuildListenerHosts s ord).1.cfg = s.cfg := rfl
-      rw [this]; exact hp'
-    simp only [hp2, Bool.false_eq_true, if_false]
+  · have hp' : s.cfg.passthrough = false := by simpa using hp
+    simp only [hp', Bool.false_eq_true, if_false]
     rcases h with h | h
     · rw [h] at hp'; cases hp'
     · unfold Inv; rw [rebuildListenerHosts_hosts, rebuildListenerHosts_objs]; exact h
@@ -101,45 +97,26 @@ theorem gcBoth_inv (s : State) (ord) : Inv (gcBoth s ord).1 := by
 `hosts = hostsOf(current objects)`, including the branch that skips the host
 rebuild for TransportServer events when passthrough is off. -/
 theorem step_inv (perm) (s : State) (op : Op) (h : Inv s) : Inv (step perm s op).1 := by
+  have keyTs : ∀ (m : Map TS), Inv (tsBoth { s with tss := m } (perm m)).1 := by
+    intro m
+    apply tsBoth_inv
+    by_cases hp : s.cfg.passthrough = true
+    · exact Or.inl hp
+    · refine Or.inr ?_
+      have hp' : s.cfg.passthrough = false := by simpa using hp
+      unfold Inv
+      show s.hosts = hostsOf { s.toObjs with tss := m }
+      rw [hostsOf_tss_irrelevant _ _ hp']; exact h
   cases op with
-  | ing i cls valid =>
-    simp only [step]
-    split <;> (try split) <;> exact rebuildHosts_inv _
-  | vs v cls valid =>
-    simp only [step]
-    split <;> (try split) <;> exact rebuildHosts_inv _
-  | vsr r cls valid =>
-    simp only [step]
-    split <;> (try split) <;> exact rebuildHosts_inv _
-  | ts t cls valid =>
-    simp only [step]
-    have key : ∀ (m : Map TS), Inv (tsBoth { s with tss := m } (perm m)).1 := by
-      intro m
-      apply tsBoth_inv
-      by_cases hp : s.cfg.passthrough = true
-      · exact Or.inl hp
-      · refine Or.inr ?_
-        have hp' : s.cfg.passthrough = false := by simpa using hp
-        unfold Inv
-        show s.hosts = hostsOf { s.toObjs with tss := m }
-        rw [hostsOf_tss_irrelevant _ _ hp']; exact h
-    split <;> (try split) <;> first | exact key _
+  | ing i cls valid => rw [step_ing_fst]; exact rebuildHosts_inv _
+  | vs v cls valid => rw [step_vs_fst]; exact rebuildHosts_inv _
+  | vsr r cls valid => rw [step_vsr_fst]; exact rebuildHosts_inv _
+  | ts t cls valid => rw [step_ts_fst]; exact keyTs _
   | gc ls => simp only [step]; exact gcBoth_inv _ _
   | delIng k => simp only [step]; split <;> first | exact rebuildHosts_inv _ | exact h
   | delVs k => simp only [step]; split <;> first | exact rebuildHosts_inv _ | exact h
   | delVsr k => simp only [step]; split <;> first | exact rebuildHosts_inv _ | exact h
-  | delTs k =>
-    simp only [step]
-    split
-    · apply tsBoth_inv
-      by_cases hp : s.cfg.passthrough = true
-      · exact Or.inl hp
-      · refine Or.inr ?_
-        have hp' : s.cfg.passthrough = false := by simpa using hp
-        unfold Inv
-        show s.hosts = hostsOf { s.toObjs with tss := _ }
-        rw [hostsOf_tss_irrelevant _ _ hp']; exact h
-    · exact h
+  | delTs k => simp only [step]; split <;> first | exact keyTs _ | exact h
   | delGc => simp only [step]; exact gcBoth_inv _ _
 
 theorem run_inv (perm) (s : State) (ops : List Op) (h : Inv s) : Inv (run perm s ops) := by
@@ -149,7 +126,8 @@ theorem run_inv (perm) (s : State) (ops : List Op) (h : Inv s) : Inv (run perm s
   | cons a r ih => simp only [List.foldl_cons]; exact ih _ (step_inv perm s a h)
 
 theorem init_inv (cfg : Cfg) : Inv { toObjs := { cfg := cfg } } := by
-  unfold Inv hostsOf; cases hp : cfg.passthrough <;> simp [buildHosts, buildIngs, buildVss, buildTss, hp] <;> rfl
+  unfold Inv hostsOf buildHosts buildIngs buildVss buildTss listenerWarnings
+  cases hp : cfg.passthrough <;> simp [hp, markValidHosts, resolveHosts]
 
 /-- **History independence.** Two arbitrary finite histories (any mix of add / update /
 invalidate / class-change / delete events over all kinds and the GlobalConfiguration,
